@@ -201,7 +201,20 @@ func (h *hookReg[T]) add(f T) graphsync.UnregisterHookFunc {
 		}
 	}
 }
+// HookBegin records, per task, the scheduling step at which the graphsync hook invocation it is currently
+// running began (0 = not inside a hook). Harness oracles use it to tell callbacks that began before a cleanup
+// from callbacks that began after it.
+var HookBegin = map[*simrt.Task]int{}
+
 func (h *hookReg[T]) each(f func(T)) {
+	var t *simrt.Task
+	if s := simrt.Current(); s != nil {
+		t = s.CurrentTask()
+		if HookBegin[t] == 0 {
+			HookBegin[t] = s.Steps + 1
+			defer delete(HookBegin, t)
+		}
+	}
 	for _, k := range append([]int(nil), h.keys...) {
 		if g, ok := h.m[k]; ok {
 			f(g)
@@ -239,6 +252,32 @@ type GS struct {
 	// dedup: links already sent per (peer, dedup key)
 	sentLinks map[string]map[cid.Cid]int
 	ended     map[graphsync.RequestID]int
+	// Completions logs every firing of the completed-response listeners (responder side)
+	Completions []GSCompletion
+	// Terminations logs how each outgoing request ended (requester side)
+	Terminations []GSTermination
+	// inHistory logs every incoming new request (also re-sends after a requester unpause)
+	inHistory []inRec
+	// OnWire logs, per incoming request, the block indexes that were put on the wire (responder side)
+	OnWire map[graphsync.RequestID][]int64
+}
+
+type inRec struct {
+	begin int // step at which the request arrived
+	step int
+	id   graphsync.RequestID
+	exts []graphsync.ExtensionData
+}
+
+type GSCompletion struct {
+	Step   int
+	ID     graphsync.RequestID
+	Status graphsync.ResponseStatusCode
+}
+type GSTermination struct {
+	Step int
+	ID   graphsync.RequestID
+	Err  error
 }
 
 func (n *GSNet) NewGS(self peer.ID, lsys ipld.LinkSystem) *GS {
@@ -496,6 +535,7 @@ type outReq struct {
 	termErr    error
 	stepping   bool
 	seq        int
+	lastEmitted error // last non-terminal error put on the error channel
 }
 
 func (g *GS) newRequestID() graphsync.RequestID {
@@ -593,6 +633,11 @@ func (g *GS) terminateOut(r *outReq) {
 	}
 	r.state = outDone
 	g.ended[r.id] = g.w.S.Steps
+	te := r.termErr
+	if te == nil {
+		te = r.lastEmitted // consumers see the last error on the channel
+	}
+	g.Terminations = append(g.Terminations, GSTermination{Step: g.w.S.Steps, ID: r.id, Err: te})
 	if r.termErr != nil {
 		select {
 		case r.errCh <- r.termErr:
@@ -731,6 +776,7 @@ func (g *GS) runOut(r *outReq) {
 		if !found {
 			select {
 			case r.errCh <- graphsync.RemoteMissingBlockErr{Link: cidlink.Link{Cid: link}}:
+				r.lastEmitted = graphsync.RemoteMissingBlockErr{Link: cidlink.Link{Cid: link}}
 			default:
 			}
 			r.prefix = append(r.prefix, visit{link: link})
@@ -939,6 +985,7 @@ func (g *GS) sendResp(x *inResp, status graphsync.ResponseStatusCode, items []gs
 			if cur := g.in[id]; cur == x {
 				delete(g.in, id)
 			}
+			g.Completions = append(g.Completions, GSCompletion{Step: g.w.S.Steps, ID: id, Status: status})
 			g.completed.each(func(l graphsync.OnResponseCompletedListener) { l(from, req, status) })
 		}
 	}
@@ -946,6 +993,10 @@ func (g *GS) sendResp(x *inResp, status graphsync.ResponseStatusCode, items []gs
 }
 
 func (g *GS) receiveNew(from peer.ID, m *gsMsg) {
+	hi := len(g.inHistory)
+	g.inHistory = append(g.inHistory, inRec{begin: g.w.S.Steps, step: g.w.S.Steps, id: m.id, exts: m.exts})
+	// the step at which the incoming-request hooks have returned (when the application knows the request)
+	defer func() { g.inHistory[hi].step = g.w.S.Steps }()
 	rd := reqData{id: m.id, root: m.root, sel: m.sel, exts: m.exts, typ: graphsync.RequestTypeNew}
 	acts := &inReqActions{ctx: context.Background()}
 	g.inReqHooks.each(func(h graphsync.OnIncomingRequestHook) { h(from, rd, acts) })
@@ -1111,6 +1162,10 @@ func (g *GS) runIn(x *inResp) {
 		}
 		if send {
 			it.data = v.data
+			if g.OnWire == nil {
+				g.OnWire = map[graphsync.RequestID][]int64{}
+			}
+			g.OnWire[x.id] = append(g.OnWire[x.id], idx)
 		}
 		status := graphsync.PartialResponse
 		var hookErr error
